@@ -70,6 +70,8 @@ def cases(tier):
     for ci in range(len(CONFIGS)):
         for wd in WDS:
             yield (ci, wd, tier)
+    for ci in range(len(CONFIGS)):
+        yield ("preload", ci, "abs", tier)
     for ci in _RESULT_CONFIGS():
         yield ("cross", ci, tier)
     for ci in range(len(CONFIGS)):
@@ -305,7 +307,49 @@ def _run_wdhist(case):
             "outcomes": {"wdhist:%s" % ("ok" if not viols else "bad"): 1}, "sample": {"parameter": repr(cfg), "histories": states}}
 
 
+BUILTIN_SETS = (("mpilot.libraries.eems.basic", "mpilot.libraries.eems.csv", "mpilot.libraries.eems.fuzzy"),
+                ("mpilot.libraries.eems.basic", "mpilot.libraries.eems.netcdf", "mpilot.libraries.eems.fuzzy"))
+
+
+def _run_preloaded(case):
+    """the same judgement in a forked child in which programs over BOTH built-in library sets have been constructed first: what a
+    parameter object accepts and returns is a function of its own configuration, not of which libraries this process has loaded"""
+    import os
+    import pickle
+
+    _, ci, wdname, tier = case
+    r, w = os.pipe()
+    pid = os.fork()
+    if pid == 0:
+        try:
+            os.close(r)
+            try:
+                from mpilot.program import Program
+
+                for libs in BUILTIN_SETS:
+                    Program(libraries=libs)
+                _CTX.clear()
+                out = run((ci, wdname, tier))
+                for v in out["viols"]:
+                    v["key"] += ":after-loading-the-built-in-libraries"
+                    v.setdefault("detail", {})
+                out["viols"] = out["viols"][:20]
+            except BaseException as exc:  # noqa
+                out = {"evals": 1, "nontrivial": 0, "judged": 0, "viols": [V("C20:preloaded:harness-error:" + type(exc).__name__, repr(exc))], "outcomes": {}, "sample": None}
+            with os.fdopen(w, "wb") as f:
+                pickle.dump(out, f)
+        finally:
+            os._exit(0)
+    os.close(w)
+    with os.fdopen(r, "rb") as f:
+        data = f.read()
+    os.waitpid(pid, 0)
+    return pickle.loads(data)
+
+
 def run(case):
+    if case[0] == "preload":
+        return _run_preloaded(tuple(case))
     if case[0] == "cross":
         return _run_cross(tuple(case))
     if case[0] == "wdhist":
